@@ -463,6 +463,12 @@ def _main_body(a, prop, seed, mod, run):
             if not ok2:
                 aud["ok"] = False
                 aud["problems"].append("leanchecker rejected the compiled module: " + out2)
+        # the implementation exercised must be the tree under test
+        csep_mod = sys.modules.get("csep")
+        if csep_mod is not None:
+            run.extra.setdefault("csep_file", csep_mod.__file__)
+            if not os.path.realpath(csep_mod.__file__).startswith(os.path.realpath(REPO) + os.sep):
+                raise RuntimeError(f"csep was imported from {csep_mod.__file__}, not from {REPO}")
         if not aud["ok"]:
             # proof obligation broken: the harness's oracle over the generated cases was the failing-input
             # search; if it found nothing, report with no-failing-input-found and name what broke
